@@ -220,6 +220,35 @@ def check_outputs(chk, case, res, shape, exp_scale):
     return ok
 
 
+def check_pair_blocks(chk, lib, case, env):
+    """The public pair_matrix(Rji, [s1, s1rc, s2]) against the block-entry terms K<k>_<ab> of every
+    interacting pair (the triple comes from PairInteractions.caller, which is C12's subject)."""
+    hm, ip = render(lib, cfg_view(case))
+    dim, S = case["dim"], case["S"]
+    for k, pr in enumerate(case["pairs"], start=1):
+        if not pr["inter"]:
+            continue
+        ti, tj = case["typ"][pr["i"] - 1] - 1, case["typ"][pr["j"] - 1] - 1
+        rji = np.array(pr["d"], dtype=float) / S
+        with np.errstate(all="ignore"):
+            try:
+                dudrs = lib.PairInteractions(float(np.linalg.norm(rji)), q(case["eps"][ti][tj]), q(case["sigma"][ti][tj]),
+                                             q(case["rc"][ti][tj]), bool(case["shift"])).caller(ip)
+                bi, bj = hm.pair_matrix(rji, dudrs)
+            except Exception as e:
+                chk.violation(f"raises:{type(e).__name__}", dict(case_for_replay(case), call="pair_matrix", pair=[pr["i"], pr["j"]], error=str(e)))
+                return False
+        kexp = np.array([[env[f"K{k}_{min(a, b) + 1}{max(a, b) + 1}"] for b in range(dim)] for a in range(dim)], dtype=float)
+        tol = 1e-9 + 1e-9 * np.abs(kexp)
+        bi, bj = np.asarray(bi, dtype=float), np.asarray(bj, dtype=float)
+        if bi.shape != kexp.shape or np.any(np.abs(bi - kexp) > tol) or np.any(np.abs(bj + kexp) > tol):
+            chk.violation("pair_matrix", dict(case_for_replay(case), pair=[pr["i"], pr["j"]], Rji=rji.tolist(),
+                                              dudrs=[float(x) for x in dudrs], observed_i=bi.tolist(), observed_j=bj.tolist(),
+                                              expected_i=kexp.tolist()))
+            return False
+    return True
+
+
 def replay_case(chk, lib, case, shapes, tmp, extra_paths=False):
     cfg = cfg_view(case)
     dim, N = case["dim"], len(case["pos"])
@@ -232,11 +261,13 @@ def replay_case(chk, lib, case, shapes, tmp, extra_paths=False):
     if case["edge"] and (hertz or not case["dyadic"]):
         chk.tie()
         return
-    exp, _ = expected_matrix(case)
+    exp, env = expected_matrix(case)
     try:
         res = run_code(lib, cfg, tmp)
     except Exception as e:
         chk.violation(f"raises:{type(e).__name__}", dict(case_for_replay(case), error=str(e)))
+        return
+    if not check_pair_blocks(chk, lib, case, env):
         return
     if res["matrix"] is None:
         chk.violation("outputs:no-matrix-file", case_for_replay(case))
@@ -401,6 +432,17 @@ def direction_b(chk, lib, tmp, nrec):
             chk.ok(("B", rid), nontrivial=len(t["pattern"]) > 0)
             chk.extra["entries_compared"] = chk.extra.get("entries_compared", 0) + int(exp.size)
     chk.extra["trace_records"] = len(trace)
+    # binding self-test: one corrupted field must be rejected at exactly that record
+    clean = [t for t in trace if t["id"] not in rejected and printed.get(t["id"], {}).get("m") == "TraceExpect"][:3]
+    if len(clean) == 3:
+        N = len(clean[1]["pos"])
+        allp = [[i + 1, j + 1] for i in range(N) for j in range(i + 1, N)]
+        cor = dict(clean[1])
+        cor["pattern"] = cor["pattern"][1:] if cor["pattern"] else [allp[0]]
+        _, rej = common.validate_trace("TraceHessian", [clean[0], cor, clean[2]], timeout=1800)
+        if rej is None or rej[0] != 1 or rej[1] != "InteractingPairSet":
+            raise common.MachineryError(f"corrupt-one-field self-test: expected rejection of record 1 by InteractingPairSet, got {rej}")
+        chk.extra["corrupted_record_rejected"] = True
 
 
 # --------------------------------------------------------------------------
@@ -433,14 +475,14 @@ def run(tier, replay=None):
                 print(json.dumps(case, indent=1))
             return 0
         quick = tier == "quick"
-        rounds = [0] if quick else [0, 1, 2]
+        rounds = [0] if quick else [0, 1]
         shapes = {}
         for dim in (2, 3):
             for rd in rounds:
                 consts = {"Tier": tier, "DIM": dim, "SEED": (common.SEED * 7 + rd) % 30000,
                           "SMOD": (12 if dim == 2 else 18) if quick else 3, "REP": 1}
                 r = run_tlc_sharded("MC_Hessian", dict(constants=consts, invariants=INVS + ["Emit"]),
-                                    nshards=4 if quick else 12, timeout=3000, coverage=(not quick and rd == 0))
+                                    nshards=4 if quick else 12, timeout=3000, coverage=(not quick and rd == 0 and dim == 2))
                 require_model_ok(r, f"MC_Hessian dim={dim}")
                 chk.add_tlc(r, f"MC_Hessian dim={dim} round={rd}")
                 seen = set()
@@ -455,7 +497,7 @@ def run(tier, replay=None):
                         shapes[(c["shape"]["N"], c["shape"]["dim"])] = c["shape"]
                 if not cases:
                     raise common.MachineryError("MC_Hessian emitted no cases")
-                if not quick and rd == 0 and not r.coverage.get("Next"):     # Next == \E k : AddPair(k)
+                if not quick and rd == 0 and dim == 2 and not r.coverage.get("Next"):     # Next == \E k : AddPair(k)
                     raise common.MachineryError(f"coverage: action AddPair never taken ({r.coverage})")
                 for c in cases:
                     lead = c["m"] == "Hessian" and bool(c.get("shape", {}).get("N"))
